@@ -14,16 +14,46 @@ def sh(cmd, **kw):
 
 
 def main():
+    global WT
     args = [a for a in sys.argv[1:] if not a.startswith("--")]
     thorough = "--thorough" in sys.argv
+    jobs = 1
+    outfile = None
+    for a in sys.argv[1:]:
+        if a.startswith("--jobs="):
+            jobs = int(a.split("=")[1])
+        if a.startswith("--wt="):
+            WT = a.split("=")[1]
+        if a.startswith("--out="):
+            outfile = a.split("=")[1]
     sd = os.path.join(V, "seeded")
     names = sorted(d for d in os.listdir(sd) if os.path.isdir(os.path.join(sd, d)))
     if args:
         names = [n for n in names if n in args or any(n.startswith(a) for a in args)]
+    rp = os.path.join(sd, "RESULTS.json")
+    if jobs > 1:
+        # split the names over workers with their own worktrees, then merge their result files
+        procs = []
+        for k in range(jobs):
+            part = names[k::jobs]
+            if not part:
+                continue
+            out = f"/tmp/seeded-results-{k}.json"
+            cmd = [sys.executable, os.path.abspath(__file__), f"--wt=/tmp/seeded-wt-{k}", f"--out={out}"] + (["--thorough"] if thorough else []) + ["--exact"] + part
+            procs.append((subprocess.Popen(cmd), out))
+        results = json.load(open(rp)) if os.path.exists(rp) else {}
+        for pr, out in procs:
+            pr.wait()
+            if os.path.exists(out):
+                results.update(json.load(open(out)))
+                os.remove(out)
+        json.dump(results, open(rp, "w"), indent=1, sort_keys=True)
+        return 0
+    if "--exact" in sys.argv:
+        names = [n for n in names if n in args]
     env = dict(os.environ, VERIF_REPO=WT, GOFLAGS="-mod=mod", GOPROXY="off", GOSUMDB="off", GOTOOLCHAIN="local")
     results = {}
-    rp = os.path.join(sd, "RESULTS.json")
-    if os.path.exists(rp):
+    if outfile is None and os.path.exists(rp):
         results = json.load(open(rp))
     for n in names:
         d = os.path.join(sd, n)
@@ -64,7 +94,7 @@ def main():
         finally:
             sh(f"git -C /repo worktree remove --force {WT}")
             sh("rm -rf /tmp/verif-harness-" + hashlib.sha1(WT.encode()).hexdigest()[:10])
-    json.dump(results, open(rp, "w"), indent=1, sort_keys=True)
+    json.dump(results, open(outfile or rp, "w"), indent=1, sort_keys=True)
     return 0
 
 
